@@ -82,12 +82,14 @@ def core_space(ctx):
     cc = read_ndjson(pats("condctx", 0))      # conditionals (groups in conditions and branches) belong to C01/C02 as much as to C15
     if ctx.quick:
         spaces = [("pat123", renumber_ids(small), t3), ("ctxfill", cf, t3), ("condctx", cc, t3),
+                  ("ctx2", common.ctx2(ctx, "ctx2", 700), t3),      # two-level nesting of the contexts (seeded picks, built by Gram.tla)
                   ("pat4sample", renumber_ids(sample(ctx, p4, 1500)), t3),
                   ("random", randgen.random_pats(ctx.rng, "core", 800, depth=3), t3)]
         ctx.exhaustive = False
     else:
         t4 = texts("sig6", 4)
         spaces = [("pat123", renumber_ids(small), t3), ("ctxfill", cf, t3), ("condctx", cc, t3), ("pat4", p4, t3),
+                  ("ctx2", common.ctx2(ctx, "ctx2", 12000), t3),
                   ("random", randgen.random_pats(ctx.rng, "core", 20000, depth=4, max_nodes=16), t3),
                   ("pat123_L4", renumber_ids(small), t4), ("ctxfill_L4", cf, t4)]
         ctx.exhaustive = False
@@ -214,9 +216,10 @@ def c16(ctx):
         return renumber_ids(out)
     if ctx.quick:
         spaces = [("wild123", twins(sample(ctx, wild, 700))), ("ctxfill", twins(sample(ctx, cf, 900))), ("plain3", twins(sample(ctx, plain, 600))),
+                  ("plainctx", twins(read_ndjson(pats("plainctx", 0)))),
                   ("random_wild", randgen.random_pats(ctx.rng, "wild", 800, depth=3))]
     else:
-        spaces = [("wild123", twins(wild)), ("ctxfill", twins(cf)), ("plain3", twins(plain)), ("wild4", twins(sample(ctx, read_ndjson(pats("wild", 4)), 20000))),
+        spaces = [("wild123", twins(wild)), ("ctxfill", twins(cf)), ("plain3", twins(plain)), ("plainctx", twins(read_ndjson(pats("plainctx", 0)))), ("wild4", twins(sample(ctx, read_ndjson(pats("wild", 4)), 20000))),
                   ("random_wild", randgen.random_pats(ctx.rng, "wild", 20000, depth=4, max_nodes=16))]
     for name, recs in spaces:
         stats, rejects, cerr = run_simple(ctx, "TraceMeta", name, "meta", recs, t2)
@@ -225,6 +228,19 @@ def c16(ctx):
         for j in rejects:
             ctx.violation("pattern %s: group metadata inconsistent (captures_len=%s names=%s bad match=%s)" % (j["pat"], j["clen"], j["names"], j["bad_match"]),
                           dict(kind="meta", ast=j["ast"], ng=j["ng"], pat=j["pat"], texts=t2, got=j))
+    # known findings with a metadata witness: probed on every run, reported as KNOWN-FINDING while they still reproduce
+    for f in common.open_findings("C16"):
+        for w in f.get("witnesses", []):
+            if w.get("kind") != "meta":
+                continue
+            tp = os.path.join(common.workdir("C16"), "witness.texts.ndjson")
+            common.write_ndjson(tp, [{"t": t} for t in w["texts"]])
+            sub = common.Ctx(ctx.prop, ctx.tier, ctx.seed)
+            st, rej, _ = run_simple(sub, "TraceMeta", "witness_" + f["id"], "meta", [dict(id=1, ast=w["ast"], ng=w["ng"])], tp, shards=1)
+            if rej:
+                ctx.known_hits.append("%s %s" % (f["id"], w["what"]))
+            else:
+                ctx.note("known finding %s: witness %s no longer fails" % (f["id"], w["pat"]))
     ctx.exhaustive = False
     ctx.assumptions = ["group numbering = opening-parenthesis order is part of Ast.tla (WellNumbered) and exported spaces satisfy it"]
     return "model_checking"
@@ -379,7 +395,7 @@ def c18(ctx):
     common.vh(["raw", "--asts", af, "--texts", t2, "--out-pats", rp, "--out-texts", rt])
     conc = os.path.join(common.HARNESS, "target", "release", "vhconc")
     total_calls = 0
-    for threads, rounds in ([(2, 3), (4, 2), (8, 2)] if ctx.quick else [(2, 20), (3, 20), (4, 20), (8, 20), (16, 20)]):
+    for threads, rounds in ([(2, 4), (4, 4), (8, 4)] if ctx.quick else [(2, 20), (3, 20), (4, 20), (8, 20), (16, 20)]):
         name = "stress_t%d" % threads
         prefix = os.path.join(d, name + ".rows")
         common.clean_prefix(prefix)
@@ -982,7 +998,10 @@ def c06(ctx):
         mut.append(dict(id=i + 1, toks=t))
     known = {w["what_key"]: f for f in common.open_findings("C06") for w in f.get("witnesses", []) if w.get("kind") == "compile"}
     d = common.workdir("C06")
-    for name, recs in (("vocab_le%d" % n, vocab), ("amplified", amp), ("stressors", stress), ("random", rnd), ("mutations", mut)):
+    # valid patterns as they come from the grammar (every style): compiling them must not panic either
+    spcf = read_ndjson(common.export("spell_ctxfill_0", "spell", 0, prof="ctxfill"))
+    valid = renumber_ids([dict(toks=r["toks"]) for r in (sample(ctx, sp, 3000) + sample(ctx, spcf, 3000) if ctx.quick else sp + spcf)])
+    for name, recs in (("vocab_le%d" % n, vocab), ("amplified", amp), ("stressors", stress), ("random", rnd), ("mutations", mut), ("valid", valid)):
         outs = compilep.run_inputs(ctx, name, recs)
         # the parser stage has an exact oracle: Parse.tla
         prec = [r for r in recs if not ("k" in r and r["k"] > 64)]
@@ -1130,10 +1149,10 @@ def c09(ctx):
     for n in (1, 2, 3):
         it += read_ndjson(pats("iter", n))
     if ctx.quick:
-        spaces = [("wild123", renumber_ids(sample(ctx, wild, 1500)), t3), ("iter123", renumber_ids(sample(ctx, it, 600)), t3),
+        spaces = [("shapes", read_ndjson(pats("wildshapes", 0)), tw), ("shapes_sig6", read_ndjson(pats("wildshapes", 0)), t3), ("wild123", renumber_ids(sample(ctx, wild, 1500)), t3), ("iter123", renumber_ids(sample(ctx, it, 600)), t3),
                   ("random_wild", randgen.random_pats(ctx.rng, "wild", 800, depth=3), tw)]
     else:
-        spaces = [("wild123", renumber_ids(wild), t3), ("iter123", renumber_ids(it), t3),
+        spaces = [("shapes", read_ndjson(pats("wildshapes", 0)), tw), ("shapes_sig6", read_ndjson(pats("wildshapes", 0)), t3), ("wild123", renumber_ids(wild), t3), ("iter123", renumber_ids(it), t3),
                   ("wild4", renumber_ids(sample(ctx, read_ndjson(pats("wild", 4)), 20000)), t3),
                   ("random_wild", randgen.random_pats(ctx.rng, "wild", 20000, depth=4, max_nodes=16), tw)]
     for name, recs, tpath in spaces:
